@@ -151,16 +151,16 @@ func (u *upstream) waitHas(tag string, d time.Duration) bool {
 
 // History describes one generated history.
 type History struct {
-	Index   int    `json:"index"`
-	Kind    string `json:"kind"` // passive, retry, retry-recover, active, limit
-	D       int    `json:"fail_duration_ms,omitempty"`
-	M       int    `json:"max_fails,omitempty"`
-	T       int    `json:"try_duration_ms,omitempty"`
-	I       int    `json:"try_interval_ms,omitempty"`
-	Max     int    `json:"max_connections,omitempty"`
-	Via     string `json:"via,omitempty"` // max_connections or unhealthy_connection_count
-	Steps   int    `json:"steps,omitempty"`
-	GapMs   int    `json:"gap_ms,omitempty"`
+	Index int    `json:"index"`
+	Kind  string `json:"kind"` // passive, retry, retry-recover, active, limit
+	D     int    `json:"fail_duration_ms,omitempty"`
+	M     int    `json:"max_fails,omitempty"`
+	T     int    `json:"try_duration_ms,omitempty"`
+	I     int    `json:"try_interval_ms,omitempty"`
+	Max   int    `json:"max_connections,omitempty"`
+	Via   string `json:"via,omitempty"` // max_connections or unhealthy_connection_count
+	Steps int    `json:"steps,omitempty"`
+	GapMs int    `json:"gap_ms,omitempty"`
 }
 
 func genHistory(seed int64, i int) *History {
@@ -599,7 +599,6 @@ func limit(c *fw.Ctx, canary *oracle.Canary, h *History) {
 	c.Obs("held_connections", int64(len(heldA)))
 	c.Case(fw.Hash("limit", h.Max, h.Via, outcomes), true, func() any { return map[string]any{"history": h, "outcomes": outcomes} })
 }
-
 
 func replay(c *fw.Ctx, raw json.RawMessage) {
 	var w struct {
